@@ -1969,16 +1969,27 @@ namespace xsimd
                 using int_batch = typename bitwise_cast_batch<T, A>::type;
                 using int_type = typename int_batch::value_type;
 
-                static XSIMD_INLINE batch_type next(const batch_type& b) noexcept
+                // the ordering of the bit patterns follows the ordering of the values only for
+                // non-negative values; negative values are handled through their mirror image
+                static XSIMD_INLINE batch_type next_positive(const batch_type& b) noexcept // b >= +0
                 {
                     batch_type n = ::xsimd::bitwise_cast<T>(::xsimd::bitwise_cast<int_type>(b) + int_type(1));
                     return select(b == constants::infinity<batch_type>(), b, n);
                 }
 
+                static XSIMD_INLINE batch_type prev_positive(const batch_type& b) noexcept // b > +0
+                {
+                    return ::xsimd::bitwise_cast<T>(::xsimd::bitwise_cast<int_type>(b) - int_type(1));
+                }
+
+                static XSIMD_INLINE batch_type next(const batch_type& b) noexcept
+                {
+                    return select(b < batch_type(0.), -prev_positive(-b), next_positive(abs(b)));
+                }
+
                 static XSIMD_INLINE batch_type prev(const batch_type& b) noexcept
                 {
-                    batch_type p = ::xsimd::bitwise_cast<T>(::xsimd::bitwise_cast<int_type>(b) - int_type(1));
-                    return select(b == constants::minusinfinity<batch_type>(), b, p);
+                    return select(b > batch_type(0.), prev_positive(b), -next_positive(abs(b)));
                 }
             };
         }
@@ -1986,8 +1997,9 @@ namespace xsimd
         XSIMD_INLINE batch<T, A> nextafter(batch<T, A> const& from, batch<T, A> const& to, requires_arch<generic>) noexcept
         {
             using kernel = detail::nextafter_kernel<T, A>;
-            return select(from == to, from,
-                          select(to > from, kernel::next(from), kernel::prev(from)));
+            return select(from == to, to,
+                          select(to > from, kernel::next(from),
+                                 select(to < from, kernel::prev(from), from + to))); // unordered: NaN
         }
 
         // pow
